@@ -757,6 +757,10 @@ pub fn gen_c13(out: &mut impl Write, seed: u64, thorough: bool) {
             writeln!(out, "o.id.spec {} local {}", be.name(), hex(&lk)).unwrap();
             writeln!(out, "o.id.spec {} secret {}", be.name(), hex(&sk)).unwrap();
             writeln!(out, "o.id.spec {} public {}", be.name(), hex(&pk)).unwrap();
+            if be != Be::V1 {
+                writeln!(out, "o.id.spec {} pkesecret {}", be.name(), hex(&sk)).unwrap();
+                writeln!(out, "o.id.spec {} pkepublic {}", be.name(), hex(&pk)).unwrap();
+            }
             writeln!(out, "id {} local {}", be.name(), hex(&lk)).unwrap();
             writeln!(out, "id {} secret {}", be.name(), hex(&sk)).unwrap();
             writeln!(out, "id {} public {}", be.name(), hex(&pk)).unwrap();
@@ -798,6 +802,20 @@ pub fn gen_c13(out: &mut impl Write, seed: u64, thorough: bool) {
             let j = (i * 7 + 1) % ids.len();
             writeln!(out, "o.id.ord {} {} {}", be.name(), hex(ids[i].as_bytes()), hex(ids[j].as_bytes())).unwrap();
             writeln!(out, "txt.rt {} id local {}", be.name(), hex(ids[i].as_bytes())).unwrap();
+        }
+        // pairs of ids that differ in exactly one byte, at every position 0..32 (low bit and high bit), compared directly
+        {
+            let base = r.bytes(33);
+            let bs = format!("k{}.lid.{}", be.version(), b64(&base));
+            for pos in 0..33usize {
+                for bit in [0u8, 7] {
+                    let mut v = base.clone();
+                    v[pos] ^= 1 << bit;
+                    let vs = format!("k{}.lid.{}", be.version(), b64(&v));
+                    writeln!(out, "o.id.ord {} {} {}", be.name(), hex(bs.as_bytes()), hex(vs.as_bytes())).unwrap();
+                    writeln!(out, "o.id.ord {} {} {}", be.name(), hex(vs.as_bytes()), hex(bs.as_bytes())).unwrap();
+                }
+            }
         }
         // near misses of a valid id string: one extra alphabet character appended (every alphabet character), one dropped
         for id in ids.iter().take(3) {
@@ -932,6 +950,38 @@ pub fn gen_c16(out: &mut impl Write, seed: u64, thorough: bool, rng_build: bool)
         if answers.is_empty() { return ".".into(); }
         answers.iter().map(|a| match a { Some(b) => hex(b), None => "!".into() }).collect::<Vec<_>>().join(",")
     };
+    // every randomised operation (also the ones the model does not script: v1 signing, v1 key sealing) under failures of every
+    // flavour (unsupported, OS errors EAGAIN / EINTR / EIO, custom codes, partial fills), at each of the first draws and repeated
+    for be in [Be::V1, Be::V2, Be::V3, Be::V4] {
+        let sk = gen_secret(be);
+        let (_psk, ppk) = pke_pair(be);
+        let donor = pw_template(be, Kind::Local, &min_params(be), 32);
+        let ops: Vec<(&str, String)> = vec![("encrypt", "-".into()), ("sign", hex(&sk)), ("pie", "-".into()), ("pw", hex(donor.as_bytes())),
+            ("seal", hex(&ppk)), ("lkey", "-".into()), ("skey", "-".into())];
+        for (kind, arg) in &ops {
+            if *kind == "skey" && be == Be::V1 { continue; }
+            writeln!(out, "o.rngf {kind} {} *,*,*,*,*,*,*,* {arg}", be.name()).unwrap();
+            for fail in ["!", "!e11", "!e4", "!e5", "!c7", "~00", "~ffffffffffffffff"] {
+                for pos in 0..3usize {
+                    let mut v: Vec<&str> = vec!["*"; pos];
+                    v.push(fail);
+                    v.extend(["*"; 6]);
+                    writeln!(out, "o.rngf {kind} {} {} {arg}", be.name(), v.join(",")).unwrap();
+                }
+                for rep in [2usize, 3, 4, 7] {
+                    let mut v: Vec<&str> = vec![fail; rep];
+                    v.extend(["*"; 6]);
+                    writeln!(out, "o.rngf {kind} {} {} {arg}", be.name(), v.join(",")).unwrap();
+                }
+            }
+            // an invalid first candidate (all ones / all zeros) followed by a failing redraw (rejection sampling)
+            for first in ["ffffffffffffffffffffffffffffffffffffffffffffffffffffffffffffffffffffffffffffffffffffffffffffffff", "000000000000000000000000000000000000000000000000000000000000000000000000000000000000000000000000"] {
+                for fail in ["!", "!e11", "~00ff"] {
+                    writeln!(out, "o.rngf {kind} {} {first},{fail},*,*,* {arg}", be.name()).unwrap();
+                }
+            }
+        }
+    }
     for be in [Be::V1, Be::V2, Be::V3, Be::V4] {
         let nd = if be == Be::V2 { 24 } else { 32 };
         let (_psk, ppk) = pke_pair(be);
@@ -1005,6 +1055,9 @@ pub fn gen_c17(out: &mut impl Write, seed: u64, thorough: bool) {
             let iters = if be == Be::V1 { if thorough { 100 } else { 20 } } else if thorough { 5000 } else { 600 };
             writeln!(out, "o.conc {} {} {} {}", be.name(), threads, iters, seed.wrapping_add(k as u64)).unwrap();
         }
+        // first use of fresh key objects by many threads at once (lazy initialisation), and a history of failures of every kind
+        writeln!(out, "o.burst {} 8 {}", be.name(), if be == Be::V1 { if thorough { 30 } else { 12 } } else if thorough { 600 } else { 120 }).unwrap();
+        writeln!(out, "o.hist {} {}", be.name(), if thorough { 40 } else { 8 }).unwrap();
     }
 }
 
